@@ -97,7 +97,7 @@ def elimChild {σ : Type} (tol : α) (O : Oracles σ α) (n : Nat) (path : List 
     if d.1.isInfeasible then (.node ch.idx ⟨ch.val.aff, d.1⟩ ch.kids, d.2, true, true)
     else
       let sub := elimNode tol O n false (path ++ [halfspace paff l]) d.1 ch d.2
-      (sub.1, sub.2, false, true)
+      (sub.1, sub.2, false, d.1.isFeasible)
   | .feasible =>
     let sub := elimNode tol O n false (path ++ [halfspace paff l]) .feasible ch s
     (sub.1, sub.2, false, false)
